@@ -398,6 +398,11 @@ func (g *ExprGen) quantifier(p scopePath, depth int) string {
 			elem = p.Val.Index(g.R.Intn(p.Val.Len()))
 		}
 	}
+	if !isMap && p.Val.IsValid() && p.Val.Len() > 8 && g.R.Chance(0.6) {
+		if e := g.scan(p, op, sel); e != "" {
+			return e
+		}
+	}
 	kv, vv := g.newVar(), g.newVar()
 	mode := g.R.Intn(4) // 0 default, 1 k,v  2 k,_  3 _,v
 	var binding string
@@ -440,6 +445,52 @@ func (g *ExprGen) quantifier(p scopePath, depth int) string {
 	}
 	body := g.tree(scope, depth-1, 2)
 	return fmt.Sprintf("%s %s as %s { %s }", op, sel, binding, body)
+}
+
+// scan renders a quantifier that has to walk a long list up to one particular
+// element: any ... { v == <element j> } or all ... { v != <element j> }, so that
+// skipping, repeating or mis-addressing any element before j matters.
+func (g *ExprGen) scan(p scopePath, op, sel string) string {
+	j := g.R.Intn(p.Val.Len())
+	e := deref(p.Val.Index(j))
+	vv := g.newVar()
+	lhs := vv
+	switch catOf(e) {
+	case "struct":
+		// first exported scalar field
+		found := false
+		st := e
+		for i := 0; i < st.NumField() && !found; i++ {
+			if n, ok := fieldName(st.Type().Field(i), g.Tag); ok {
+				switch catOf(st.Field(i)) {
+				case "int", "string":
+					lhs, e, found = vv+"."+n, st.Field(i), true
+				}
+			}
+		}
+		if !found {
+			return ""
+		}
+	case "int", "uint", "float", "string":
+	default:
+		return ""
+	}
+	var lit string
+	switch catOf(e) {
+	case "string":
+		lit = g.quote(e.String())
+	case "int":
+		lit = fmt.Sprint(e.Int())
+	case "uint":
+		lit = fmt.Sprint(e.Uint())
+	default:
+		lit = trimFloat(e.Float())
+	}
+	binding := []string{vv, "_, " + vv, g.newVar() + ", " + vv}[g.R.Intn(3)]
+	if op == "any" {
+		return fmt.Sprintf("any %s as %s { %s == %s }", sel, binding, lhs, lit)
+	}
+	return fmt.Sprintf("all %s as %s { %s != %s }", sel, binding, lhs, lit)
 }
 
 // tree renders a boolean combination of leaves over scope.
